@@ -122,6 +122,11 @@ class Bounds:
                 return frozenset()
             if rv.kind == "use":
                 return self.ub(body, rv.ops[0], depth + 1)
+            if rv.kind == "un" and rv.op == "PtrMetadata":
+                from .panics import container_key
+                ck = container_key(trace(body, rv.ops[0]))
+                if ck is not None:
+                    return frozenset([("len", ck)])
             return frozenset()
         if k == "call":
             return self._call(body, t.root[1], depth)
@@ -172,9 +177,10 @@ class Bounds:
                     res.startswith("core::num::") or res in KEEP_FIRST or callee in KEEP_FIRST or res.startswith("std::time::Duration::")):
                 return arg(0)
             if last == "len" and args:
-                t = trace(body, args[0])
-                if t.last_field:
-                    return frozenset([("len", t.last_field)])
+                from .panics import container_key
+                ck = container_key(trace(body, args[0]))
+                if ck is not None:
+                    return frozenset([("len", ck)])
                 return frozenset([("call", res)])
             if res in ("std::option::Option::unwrap_or_else", "std::option::Option::unwrap_or", "std::option::Option::map_or") and len(args) >= 2:
                 return _inter(arg(0), self._fn_value(body, args[1], depth))
